@@ -22,6 +22,12 @@ Definition sp (x : Z) : bool := x >? 100000.
 Definition lift (f : Z -> Z) (x : Z) : Z := if sp x then x else f x.
 Definition lift2 (f : Z -> Z -> Z) (a b : Z) : Z := if sp a || sp b then b else f a b.
 
+(* (key, value) pairs of small ints are codes >= 200000 *)
+Definition pair (k v : Z) : Z := 200000 + (k + 100) * 1000 + (v + 100).
+Definition ispair (c : Z) : bool := c >=? 200000.
+Definition pkey (c : Z) : Z := (c - 200000) / 1000 - 100.
+Definition pval (c : Z) : Z := (c - 200000) mod 1000 - 100.
+
 Definition lib_fn (c : Z) : option (Z -> Z) :=
   match c with
   | 0 => Some (lift (fun x => x + 1)) | 1 => Some (lift (fun x => 2 * x)) | 2 => Some (lift (fun x => - x))
@@ -32,6 +38,7 @@ Definition lib_fn (c : Z) : option (Z -> Z) :=
   | 8 => Some (fun _ => STR)
   | 9 => Some (lift (fun x => nth (Z.to_nat (x mod 5)) [NONE; STR; FALSE; TUP; LST] NONE))
   | 10 => Some (lift (fun x => if x mod 2 =? 1 then 0 else x))
+  | 11 => Some (lift (fun x => pair (x mod 3) x))
   | _ => None
   end.
 Definition lib_pred (c : Z) : option (Z -> bool) :=
@@ -69,6 +76,26 @@ Definition lib_op (c : Z) : option (Z -> Z -> Z) :=
   | _ => None
   end.
 
+(* pair datasets: keyBy, mapValues, flatMapValues, sampleByKey at fractions where the real per-key sampler is certain *)
+Definition lib_kf (c : Z) : option (Z -> Z) :=
+  match c with 0 => Some (fun x => x mod 2) | 1 => Some (fun x => x mod 3) | 2 => Some (fun _ => 0) | _ => None end.
+Definition lib_vf (c : Z) : option (Z -> Z) :=
+  match c with 0 => Some (fun v => v + 1) | 1 => Some (fun v => 2 * v) | 2 => Some (fun _ => 0) | _ => None end.
+Definition lib_gv (c : Z) : option (Z -> list Z) :=
+  match c with 0 => Some (fun v => [v; v]) | 1 => Some (fun _ => []) | 2 => Some (fun v => zupto (v mod 3)) | _ => None end.
+(* keys that the Bernoulli per-key sampler keeps for fractions table c (1.0 -> always; 0.0 or no fraction -> never) *)
+Definition lib_kept (c : Z) : option (Z -> bool) :=
+  match c with
+  | 0 => Some (fun k => (k =? 0) || (k =? 2)) | 1 | 2 | 3 => Some (fun _ => false) | 4 => Some (fun k => k =? 0)
+  | _ => None
+  end.
+Definition keyby_stage (kf : Z -> Z) : stage := SMap (fun x => if sp x then x else pair (kf x) x).
+Definition mapvalues_stage (vf : Z -> Z) : stage := SMap (fun pc => if ispair pc then pair (pkey pc) (vf (pval pc)) else pc).
+Definition flatmapvalues_stage (gv : Z -> list Z) : stage :=
+  SFlatMap (fun pc => if ispair pc then map (pair (pkey pc)) (gv (pval pc)) else [pc]).
+Definition samplebykey_stage (kept : Z -> bool) : stage :=
+  SSample (fun pc => if ispair pc then (if kept (pkey pc) then 1 else 0) else 0).
+
 Definition omap {A B : Type} (f : A -> B) (o : option A) : option B :=
   match o with Some a => Some (f a) | None => None end.
 
@@ -83,6 +110,10 @@ Definition dec_stage (v : val) : option stage :=
       | 4 | 7 => Some SPersist
       | 5 => if (c =? 4) && (flag =? 0) then None else omap (SEager (negb (flag =? 0))) (lib_hfn c)
       | 6 => Some SGenSum
+      | 8 => omap keyby_stage (lib_kf c)
+      | 9 => omap mapvalues_stage (lib_vf c)
+      | 10 => omap flatmapvalues_stage (lib_gv c)
+      | 11 => if (flag =? 0) || (c =? 1) || (c =? 2) || (c =? 3) then omap samplebykey_stage (lib_kept c) else None
       | _ => None
       end
   | _ => None
@@ -173,7 +204,7 @@ Fixpoint enc_results (acts : list val) (rs : list (list event * result)) : list 
   | _, _ => []
   end.
 
-Definition run (c : val) : val :=
+Definition run3 (c : val) : val :=
   match c with
   | VTup [src; VList sts; VTup [VInt 13; VList acts; _; _]] =>
       (* a history: several actions on the same dataset object; claimed for uncached lineages only *)
@@ -196,4 +227,12 @@ Definition run (c : val) : val :=
       | _, _, _ => VBad
       end
   | _ => VBad
+  end.
+
+(* an optional 4th component is the process configuration (1 = DEBUG logging enabled for the pysparkling loggers):
+   it must not change what is evaluated, so the model ignores it *)
+Definition run (c : val) : val :=
+  match c with
+  | VTup [src; sts; act; VInt _] => run3 (VTup [src; sts; act])
+  | _ => run3 c
   end.
